@@ -39,8 +39,10 @@ func (c *vfConnDouble) Write(b []byte) (int, error) {
 	c.data = append(c.data, b...)
 	return len(b), nil
 }
-func (c *vfConnDouble) Close() error                       { c.mu.Lock(); c.closed = true; c.mu.Unlock(); return nil }
-func (c *vfConnDouble) LocalAddr() net.Addr                { return &net.TCPAddr{IP: net.ParseIP("127.0.0.1"), Port: 1} }
+func (c *vfConnDouble) Close() error { c.mu.Lock(); c.closed = true; c.mu.Unlock(); return nil }
+func (c *vfConnDouble) LocalAddr() net.Addr {
+	return &net.TCPAddr{IP: net.ParseIP("127.0.0.1"), Port: 1}
+}
 func (c *vfConnDouble) RemoteAddr() net.Addr               { return c.raddr }
 func (c *vfConnDouble) SetDeadline(t time.Time) error      { return nil }
 func (c *vfConnDouble) SetReadDeadline(t time.Time) error  { return nil }
@@ -110,9 +112,14 @@ func TestVfFailover(t *testing.T) {
 				var sink *vfSink
 				switch p.Path {
 				case "fresh", "stale":
-					port = vfFreeTCPPort(t, ip)
+					// a port found free may be taken by an ephemeral socket of the code under test before the sink binds it: try again
 					var err error
-					sink, err = vfNewSink(ip, port)
+					for try := 0; try < 50; try++ {
+						port = vfFreeTCPPort(t, ip)
+						if sink, err = vfNewSink(ip, port); err == nil {
+							break
+						}
+					}
 					if err != nil {
 						t.Fatalf("VF-INFRA %v", err)
 					}
